@@ -40,6 +40,25 @@ CHECKS = {
         note='trusted: vf/refssh.py + vf/refpeer.py (no asyncssh imports), '
              'cryptography/OpenSSL primitives, OpenSSH 9.2 client',
         design='3/C02'),
+    'C09': dict(
+        level='fault_enumeration',
+        technique='runtime monitoring under crash-point enumeration: '
+                  'scripts re-run with the transport cut / an orderly close '
+                  'injected at every record boundary of their reference '
+                  'trace (virtual time, quiescence detection), caller-side '
+                  'tracking of every API call, callback-order automata',
+        text='For generated operation scripts over up to 4 channels '
+             '(sessions, processes, run(), direct-tcpip, SFTP; server '
+             'echo/exit/close/abort/hang/slow-open) every record boundary '
+             'of the reference trace is used as a crash point (cut both '
+             'ways, EOF one way, intra-record, or close/abort/disconnect '
+             'issued at that moment); at quiescence no tracked call may be '
+             'pending, callback logs must follow the legal grammar with '
+             'connection_lost exactly once, no channel may stay registered '
+             'on a closed connection, no library task may be left.',
+        note='trusted: quiescence detector of the virtual-time loop; '
+             'harness releases all of its own gates before judging',
+        design='3/C09'),
     'C10': dict(
         level='exploration',
         technique='runtime monitoring: deterministic work meter '
